@@ -15,7 +15,7 @@ RULE = (
     "Two parts. (1) Hypothesis-generated J from ten families (conflicting pairs down to 1e-6 off antiparallel, low "
     "rank, stationary, row norms over 12 decades, duplicates, zero rows, ...), 1<=m<=7, 1<=n<=10, global scale "
     "10^[-3,3], both dtypes, with UPGrad/DualProj (pref vectors incl. zeros, reg_eps 10^[-8,-1]), "
-    "MGDA(epsilon=0, max_iters in {1,2,3,5,10,30,100,300}) and default MGDA, CAGrad(c in [1,10]). (2) Exhaustive "
+    "MGDA(epsilon=0, max_iters in {1,2,3,5,10,30,100,300,1000,3000}) and default MGDA, CAGrad(c in [1,10]). (2) Exhaustive "
     "enumeration of every matrix with entries in {-1,0,1} of the nine shapes 1x1..3x3 (21 297 matrices; quick: all "
     "shapes with <= 6 entries and a seeded 10% of 3x3) for the four aggregators. Oracle (validity predicate): every "
     "entry of J.A(J) >= -allowance - fp, allowance = reg_eps s^2 w_i (UPGrad/DualProj, w = A.weighting(J)), "
@@ -38,12 +38,13 @@ REQUIRED_CLASSES = {"UPGrad": 1, "DualProj": 1, "MGDA": 1, "CAGrad": 1, "mean-co
 
 K = 500.0
 TAU = {"float64": 2e-4, "float32": 3e-3}
-T_VALUES = [1, 2, 3, 5, 10, 30, 100, 300]
+T_VALUES = [1, 2, 3, 5, 10, 30, 100, 300, 1000, 3000]
 
 
 @st.composite
 def _case(draw):
-    fams = [f for f in FAMILIES if f != "nonconflict"] + ["conflict", "conflict", "stationary", "stationary", "rowscaled", "gauss"]
+    fams = [f for f in FAMILIES if f != "nonconflict"] + ["conflict", "conflict", "stationary", "stationary", "rowscaled", "gauss",
+                                                           "rowscaled_mild", "rowscaled_mild"]
     mc = draw(matrices(m_min=draw(st.sampled_from([1, 2, 2, 2])), m_max=7, n_max=10, families=fams, max_scale_exp=3))
     m = len(mc["J"])
     name = draw(st.sampled_from(["UPGrad", "DualProj", "MGDA", "MGDA", "CAGrad", "CAGrad"]))
@@ -56,6 +57,12 @@ def _case(draw):
             if kind == "zeros" and m >= 2:
                 v[rng.choice(m, size=int(rng.integers(1, m)), replace=False)] = 0.0
             spec["pref"] = v.tolist()
+            if draw(st.sampled_from([True, False, False, False])):
+                # preference given as an INTEGER tensor (e.g. tensor([1, 0, 2])): accepted, and must mean the same thing
+                spec["pref"] = np.round(rng.uniform(0, 3, size=m)).tolist()
+                if not any(spec["pref"]):
+                    spec["pref"][0] = 1.0
+                spec["pref_int"] = True
         spec["reg_eps"] = 10.0 ** draw(st.integers(-8, -1))
     elif name == "MGDA":
         if draw(st.sampled_from([True, True, True, True, False])):
